@@ -99,8 +99,11 @@ def gen(tier, rng):
                                    pre=pre, cfg=cfg))
         # elastic_scaled_integer operands of / and %: every signedness pairing; the reference is the mathematical
         # truncating quotient / remainder of the rep values, computed in a 64-bit signed type that holds every operand
-        for (da, db, ea, eb) in ([(15, 7, -8, -3), (7, 15, -3, -8), (31, 31, -16, -16), (8, 8, -2, -2)] if tier == "quick" else
-                                 [(15, 7, -8, -3), (7, 15, -3, -8), (31, 31, -16, -16), (8, 8, -2, -2), (10, 20, 0, -10), (24, 8, -20, 0), (1, 31, 0, 0), (31, 1, 5, -5)]):
+        # (40, 7): the dividend needs a wider machine type than the remainder (seeded change M-C02-5: operands cast to a type
+        # that holds the result and the divisor only)
+        for (da, db, ea, eb) in ([(15, 7, -8, -3), (7, 15, -3, -8), (31, 31, -16, -16), (8, 8, -2, -2), (40, 7, -8, -2), (7, 40, -2, -8)] if tier == "quick" else
+                                 [(15, 7, -8, -3), (7, 15, -3, -8), (31, 31, -16, -16), (8, 8, -2, -2), (40, 7, -8, -2), (7, 40, -2, -8), (10, 20, 0, -10), (24, 8, -20, 0), (1, 31, 0, 0), (31, 1, 5, -5),
+                                  (50, 20, 0, 0), (33, 3, -1, -1)]):
             for sa in ("int", "unsigned"):
                 for sb in ("int", "unsigned"):
                     TA = "elastic_scaled_integer<%d, power<%d>, %s>" % (da, ea, sa)
